@@ -7,6 +7,18 @@ ALL = [f"C{n:02d}" for n in range(1, 21)]
 
 # property -> (technique, level text, level note, design ref)
 CLAIMED = {
+    "C01": (
+        "table folding of regex byte classes vs ISO 32000-1 Tables 1-3, finite-domain evaluation of the _parse_main dispatch, scanner-FSM extraction with reference automaton, buffer-read classification, typestate initialisation dataflow, pairing of assembly keywords",
+        "Decides the structural necessary conditions of 'every conformant spelling reads back': lexical classes, escapes, dispatch, automaton shape, initialisation of scanner fields, balanced array/dict/proc assembly, and - completely - that no scanner reads ahead of the current byte or branches on the buffer length (buffer/offset independence). It does not decide the value computed for each token (number grammar, #xx, nesting depth): that part is value-level and is not claimed.",
+        "Trusts CPython ast/re, the transcription of Tables 1-3 in spec/pdf_lexical.json and the reference automaton confirmed by reading. Known finding C01-R4 (odd hex digit) is pinned by the existing test-suite and therefore recorded, not repaired.",
+        "DESIGN.md §5 C01",
+    ),
+    "C14": (
+        "finite abstraction of the scanner automaton analysed completely (path enumeration of loop-free scanners with symbolic index arithmetic; zero-advance subgraph acyclicity), exception-flow analysis over the resolved call graph with a verified safe-table, buffer-read classification, write-set checks",
+        "The tokenizer's twelve scanner methods are abstracted to a finite automaton whose every transition is classified by the advance of the returned index; acyclicity of the zero-advance subgraph plus the driver-loop obligations give termination and non-decreasing positions for every byte string; the exception-flow analysis shows only PSEOF escapes; read classification shows tokens cannot depend on the buffer size. This is a complete analysis of the abstraction, not a sample of inputs.",
+        "Assumes re.search/match terminate and agree with re._parser's width computation, the file object is finite, and the abstraction's reading of Python semantics (ast) is right. Scope is psparser.PSBaseParser (subclass overrides of fillbuf are outside C14).",
+        "DESIGN.md §5 C14",
+    ),
     "C20": (
         "polynomial normal forms (term rewriting) + CFG must-pass / write-set checks on utils.Plane",
         "The six affine laws and the point-transform convention are decided as polynomial identities over the source of the helpers (exact for rational arithmetic, every input); apply_matrix_rect is decided with min/max uninterpreted. For Plane the check decides the structural part only: write sets of add/remove, shared cell range, dedup and live filter, the strict overlap predicate, rounding, reachability and undo-completeness. It does not decide the index's behaviour on arbitrary histories.",
